@@ -2,7 +2,7 @@
 From Coq Require Import List NArith ZArith Bool.
 Import ListNotations.
 Require Import FlexV.Regex FlexV.SpecAuto FlexV.Pat FlexV.Tables FlexV.Scan FlexV.C01Proofs FlexV.C02Proofs
-               FlexV.GenOptions.
+               FlexV.GenOptions FlexV.NfaSim FlexV.NfaProofs.
 
 (** Two table sets (compressed, -Cf, -CF, with or without classes, interactive
     or batch loop - any [view]) that both pass the lock-step check against the
@@ -34,3 +34,15 @@ Example C02_example_override : model {| o_full := false; o_fast := false; o_meta
   o_cxx := true; o_reent := false; o_bison := false; o_array := true; o_reject := false; o_vartrail := false;
   o_lineno := false |} = Accept false true.
 Proof. reflexivity. Qed.
+
+(** Equivalence classes (ecs.c, yy_ec): when no transition of the NFA tells two
+    bytes of one class apart ([ec_consistent], computed on the NFA and the yy_ec
+    table flex emitted), then words that agree class by class drive the subset
+    construction through the same sets of NFA states: a DFA over classes loses
+    nothing. *)
+Theorem C02_equivalence_classes_respect_the_nfa : forall a ec al,
+  ec_consistent a ec al = true ->
+  forall w1 w2, Forall2 (fun b1 b2 => In b1 al /\ In b2 al /\ ec b1 = ec b2) w1 w2 ->
+  forall X, nrun a w1 X = nrun a w2 X.
+Proof. exact ec_consistent_run. Qed.
+Print Assumptions C02_equivalence_classes_respect_the_nfa.
